@@ -79,13 +79,29 @@ def do_import(wt, mdir, name):
     return 0 if ok else 1
 
 
-def do_eval(name, tier, props):
+def do_eval(name, tier, props, scratch=False):
+    """scratch=False: apply to /repo itself (git apply, run, git checkout -- .).
+    scratch=True: apply in a throw-away worktree of /repo's HEAD and point the checks at it
+    (VERIF_REPO); evidence/replays of that run go to a temp dir so that /verif/evidence keeps
+    describing the unchanged tree.  Same sources either way."""
+    global REPO
     d = os.path.join(V, "seeded", name)
     meta = json.load(open(os.path.join(d, "meta.json")))
     props = props or [meta["property"]]
+    env_prefix = ""
+    wt = None
+    if scratch:
+        wt = "/tmp/evalwt-%s" % name
+        sh("git -C /repo worktree remove --force %s" % wt)
+        rc, out = sh("git -C /repo worktree add -f --detach %s HEAD" % wt)
+        if rc:
+            print(out)
+            return 2
+        REPO = wt
+        env_prefix = "VERIF_REPO=%s VERIF_EVIDENCE_DIR=%s/_evidence VERIF_REPLAY_DIR=%s/_replays " % (wt, wt, wt)
     rc, out = sh("git status --short | grep -v '^??' | wc -l", cwd=REPO)
     if out.strip() != "0":
-        print("/repo has local modifications; refusing")
+        print("%s has local modifications; refusing" % REPO)
         return 2
     rc, out = sh("git apply %s" % os.path.join(d, "patch.diff"), cwd=REPO)
     if rc:
@@ -95,14 +111,16 @@ def do_eval(name, tier, props):
     try:
         for p in props:
             t0 = time.time()
-            rc, out = sh("./check %s --tier %s" % (p, tier), cwd=V, timeout=7200)
+            rc, out = sh(env_prefix + "./check %s --tier %s" % (p, tier), cwd=V, timeout=7200)
             viol = [l for l in out.splitlines() if l.startswith("VIOLATION")]
             det = [l.strip() for l in out.splitlines() if l.strip().startswith("query=")]
-            res[p] = {"exit": rc, "violations": viol, "details": det[:6], "wall_s": round(time.time() - t0, 1),
+            res[p] = {"applied_in": "scratch worktree of /repo HEAD" if scratch else "/repo", "exit": rc, "violations": viol, "details": det[:6], "wall_s": round(time.time() - t0, 1),
                       "summary": [l for l in out.splitlines() if l.startswith("SUMMARY")]}
             print("  %s %s: exit %d, %d VIOLATION line(s) %s" % (name, p, rc, len(viol), det[:1]))
     finally:
         sh("git checkout -- .", cwd=REPO)
+        if wt:
+            sh("git -C /repo worktree remove --force %s" % wt)
     dj = os.path.join(d, "detect.json")
     old = json.load(open(dj)) if os.path.exists(dj) else {}
     old[tier] = res
@@ -122,5 +140,5 @@ if __name__ == "__main__":
             tier = a[a.index("--tier") + 1]
         if "--props" in a:
             props = a[a.index("--props") + 1].split(",")
-        sys.exit(do_eval(a[1], tier, props))
+        sys.exit(do_eval(a[1], tier, props, "--scratch" in a))
     print(__doc__)
